@@ -297,6 +297,10 @@ def units(tier):
         for s in sequences(maxlen if f else 1):
             us.append(Unit("session[%s,%s,%s]" % (RC.shape_name(p, f, o), "path" if by_path else "stream", s), M, "session",
                            dict(pattern=p, folders=f, opts=o, seq=s, by_path=by_path), 900))
+    # the real constructor in mode 'r' on a file object whose position is anywhere (shared with C08's append variant)
+    for (p, f) in [("f", [1]), ("ff", [1, 1])]:
+        us.append(Unit("open_at_position[%s]" % RC.shape_name(p, f, {}), "vf.props.c08", "append_open_position",
+                       dict(pattern=p, folders=f, mode="r"), 900))
     return us
 
 
